@@ -259,6 +259,31 @@ func (g *Gen) call(v *ssa.Call, c *ssa.CallCommon, ins ssa.Instruction) {
 		g.builtin(ci.key, c, args, res, ins)
 		return
 	}
+	// pointer arguments that are addresses of fields / elements: the callee dereferences them through the cell
+	// heap, the caller reads the field heap — copy in before the call and copy out after it
+	type ptrArg struct{ field, cell Addr }
+	var pargs []ptrArg
+	for _, av := range c.Args {
+		ad, ok := g.addrs[av]
+		if !ok || ad.T == nil || strings.HasPrefix(ci.key, "atomic.") {
+			continue // sync/atomic operations act on the addressed location directly
+		}
+		if _, isSt := structOf(ad.T); isSt {
+			continue
+		}
+		if _, isArr := ad.T.Underlying().(*types.Array); isArr {
+			continue
+		}
+		h, srt := g.cellHeap(ad.T)
+		cell := Addr{Heap: h, Base: g.term(av).S, Sort: srt, T: ad.T}
+		g.store(cell, g.load(ad))
+		pargs = append(pargs, ptrArg{ad, cell})
+	}
+	defer func() {
+		for _, pa := range pargs {
+			g.store(pa.field, g.load(pa.cell))
+		}
+	}()
 	// atcall clauses of the enclosing function's contract
 	names := map[string]Term{}
 	for i, f := range ci.formals {
@@ -365,6 +390,34 @@ func (g *Gen) call(v *ssa.Call, c *ssa.CallCommon, ins ssa.Instruction) {
 		env2.old = pre
 		if res != nil {
 			g.bindCallResult(env2, rt)
+			// named results of the callee's signature
+			if ci.sig != nil && ci.sig.Results() != nil {
+				for i := 0; i < ci.sig.Results().Len(); i++ {
+					n := ci.sig.Results().At(i).Name()
+					if n == "" || n == "_" {
+						continue
+					}
+					if _, shadow := env2.names[n]; shadow {
+						continue
+					}
+					if len(rt.Tuple) > i {
+						env2.names[n] = rt.Tuple[i]
+					} else if i == 0 && len(rt.Tuple) == 0 {
+						env2.names[n] = rt
+					}
+				}
+			}
+			if con.Allocates && g.preAlloc != "" {
+				// an array/object returned by an allocating callee that was not allocated before is its own root
+				if len(rt.Tuple) == 0 && rt.Sort == "Slc" {
+					g.assume(fmt.Sprintf("(=> (not (select %s (sarr %s))) (= (rootof (sarr %s)) (sarr %s)))", g.preAlloc, rt.S, rt.S, rt.S))
+				}
+				for _, e := range rt.Tuple {
+					if e.Sort == "Slc" {
+						g.assume(fmt.Sprintf("(=> (not (select %s (sarr %s))) (= (rootof (sarr %s)) (sarr %s)))", g.preAlloc, e.S, e.S, e.S))
+					}
+				}
+			}
 		}
 		for _, en := range append(append([]*Clause{}, con.Ensures...), con.Defines...) {
 			if en.Kind == "defines" {
